@@ -525,7 +525,7 @@ def plan(ctx):
     ctx.bounds.update({"operations": [n for n, _ in ops], "depth": depth, "sequences": len(ops) ** depth, "pre_seeds": [101, 202]})
     ctx.explore("operation-sequences", seqs)
     rows = lattice.covering_array(FACTORS, strength=3 if th else 2, seed=ctx.seed)
-    rep = [{"kind": "repro", "cfg": dict(r, n_particles=16, n_total=64)} for r in rows]
+    rep = [{"kind": "repro", "cfg": dict(r, n_particles=16, n_total=64, ll_rng=(i % 3 == 1))} for i, r in enumerate(rows)]  # every third row: the user's likelihood draws from the global generator too
     ctx.explore("reproducibility", rep)
     it = [{"kind": "iterpos", "cfg": dict(clustering=True, sample=k, resample=r, n_particles=16, n_total=64, target="bimodal")} for k in ("tpcn", "rwm") for r in ("mult", "syst")]
     ctx.explore("per-iteration-stream", it)
